@@ -7,7 +7,7 @@ H(l) == hist' = Append(hist, l)
 GenInit == Init /\ hist = <<>>
 GenNext == \/ \E n \in 1..2 : (Ingest(n) /\ H(IF n = 1 THEN "ingest:1" ELSE "ingest:2"))
            \/ (FlushVis /\ H("flush.vis")) \/ (FlushEnd /\ H("flush.end"))
-           \/ (RotTree /\ H("rot.tree")) \/ (RotMeta /\ H("rot.meta")) \/ (RotRemove /\ H("rot.remove")) \/ (RotEnd /\ H("rot.end"))
+           \/ (RotTree /\ H("rot.tree")) \/ (RotSegmeta /\ H("rot.segmeta")) \/ (RotMeta /\ H("rot.meta")) \/ (RotRemove /\ H("rot.remove")) \/ (RotEnd /\ H("rot.end"))
            \/ (QSnapU /\ H("q.snapU")) \/ (QSnapR /\ H("q.snapR")) \/ (QTree /\ H("q.tree")) \/ (QCheck /\ H("q.check")) \/ (QPlan /\ H("q.plan"))
            \/ (QOpenCheck /\ H("q.open")) \/ (QOpenGetFetchCheck /\ H("q.fetch")) \/ (QFetchGet /\ H("q.search"))
 GenSpec == GenInit /\ [][GenNext]_<<vars, hist>>
